@@ -208,9 +208,9 @@ Proof.
   intros e v He H. destruct v; cbn [snap_safe] in H; try discriminate;
     try solve [eexists; split; [reflexivity|];
                first [reflexivity | apply eval_sym; assumption | apply self_evaluating_eval; assumption]].
-  - (* Hash *) apply andb_true_iff in H. destruct H as [H _]. destruct (reloads_in _ H) as (f & Ef & Ev).
-    exists f. split; [exact Ef|apply Ev; exact He].
-  - (* Lam *) destruct (reloads_in _ H) as (f & Ef & Ev). exists f. split; [exact Ef|apply Ev; exact He].
+  - (* Hash *) apply andb_true_iff in H. destruct H as [H Hn]. destruct (reloads_in _ H) as (f & Ef & Ev).
+    exists f. split; [exact Ef|apply Ev; [exact He|apply no_inst_insts_in; exact Hn]].
+  - (* Lam *) destruct (reloads_in _ H) as (f & Ef & Ev). exists f. split; [exact Ef|apply Ev; [exact He|reflexivity]].
 Qed.
 
 Lemma const_eval : forall e v, env_ok e -> const_safe v = true -> eval e v = Ok v.
@@ -466,10 +466,12 @@ Qed.
 Definition ex_history : list obj :=
   [ L [Sym "defvar"; Sym "*va*"; Fix 5; Str "my x"];
     L [Sym "defvar"; Sym "*va*"; Fix 6];
-    L [Sym "defparameter"; Sym "*vb*"; quote (L [Fix 1; L [Fix 2; Str "s"]; Vec [Fix 1; Sym "a"] T true; Sym "b"])];
+    L [Sym "defparameter"; Sym "*vb*"; quote (L [Fix 1; L [Fix 2; Str "s"]; Vec [Fix 1; Sym "a"] T true None; Sym "b"])];
     L [Sym "setq"; Sym "*vb*"; quote (Dot [Fix 1; Fix 2] (Fix 3))];
     L [Sym "defvar"; Sym "*vc*"; L [Sym "let"; L [L [Sym "table"; L [Sym "make-hash-table"]]];
-                                   L [Sym "setf"; L [Sym "gethash"; quote (Sym "k"); Sym "table"]; Fix 12]; Sym "table"]];
+                                   L [Sym "setf"; L [Sym "gethash"; quote (Sym "k"); Sym "table"]; Fix 12];
+                                   L [Sym "setf"; L [Sym "gethash"; Fix 1; Sym "table"]; quote (L [Fix 1; Sym "two"])];
+                                   L [Sym "setf"; L [Sym "gethash"; Str "s"; Sym "table"]; quote (Sym "sym")]; Sym "table"]];
     L [Sym "defvar"; Sym "*vd*"; L [Sym "lambda"; L [Sym "x"]; L [Sym "*"; Sym "x"; Fix 2]]];
     L [Sym "defvar"; Sym "*ve*"; quote (Sym "fixnum")];
     L [Sym "defconstant"; Sym "+ca+"; Fix 42; Str "the answer"];
@@ -509,14 +511,6 @@ Lemma unbound_variable_refuted :
   /\ snapshot s = [L [Sym "defvar"; Sym (qual "*u*")]; L [Sym "setq"; Sym (qual "*u*"); Sym "<unbound>"; Sym "0x00"]].
 Proof. repeat split; vm_compute; reflexivity. Qed.
 
-(* a hash table whose value is a list: the snapshot writes the value unevaluated inside the (let ((table ...))) form *)
-Lemma snapshot_hash_value_refuted :
-  let s := run_or_empty [L [Sym "defvar"; Sym "*h*";
-              L [Sym "let"; L [L [Sym "table"; L [Sym "make-hash-table"]]];
-                 L [Sym "setf"; L [Sym "gethash"; Fix 1; Sym "table"]; quote (L [Fix 1; Fix 2])]; Sym "table"]]] in
-  sess_ok s = false /\ meets_spec s = false /\ snd (load_forms empty_session (snapshot s)) = [true; false].
-Proof. repeat split; vm_compute; reflexivity. Qed.
-
 (* ---- the decidable form of the specification used by the per-run self-check ---- *)
 Lemma obj_eqb_refl : forall v, obj_eqb v v = true.
 Proof.
@@ -540,6 +534,7 @@ Proof.
   induction v using obj_ind2; cbn [obj_eqb];
     try reflexivity; try apply Z.eqb_refl; try apply String.eqb_refl;
     rewrite ?String.eqb_refl, ?Hall, ?Halls, ?IHv, ?Bool.eqb_reflx by assumption; try reflexivity.
+  - destruct fp; [apply Nat.eqb_refl|reflexivity].
   - destruct (list_eq_dec Nat.eq_dec dims dims); [reflexivity|contradiction].
   - induction kvs as [|[k w] r IH]; [reflexivity|]. inversion H as [|? ? [Hk Hw] Hr]; subst. cbn [fst snd] in *.
     rewrite Hk, Hw. cbn [andb]. apply IH. exact Hr.
@@ -576,110 +571,34 @@ Fixpoint snap_safe_i (v : obj) : bool :=
   | Flv _ _ _ _ _ _ => false
   | _ => snap_safe v
   end.
-(* every instance inside v belongs to a flavor the environment knows, with exactly its instance variables *)
-Fixpoint insts_in (e : env) (v : obj) : bool :=
-  match v with
-  | Inst f slots =>
-      match lookup e f with
-      | Some (Flv _ ivars _ _ _ _) => strings_eqb (map fst ivars) (map fst slots)
-      | _ => false
-      end && keys_nodupb (map fst slots) &&
-      (fix go (l : list (string * obj)) : bool := match l with [] => true | (_, w) :: r => insts_in e w && go r end) slots
-  | _ => true
-  end.
-
-Definition setf_slot (k : string) (fw : obj) : obj := L [Sym "setf"; L [Sym "slot-value"; Sym "inst"; quote (Sym k)]; fw].
-Definition inst_let (f : string) (setfs : list obj) : obj :=
-  L ([Sym "let"; L [L [Sym "inst"; L [Sym "make-instance"; quote (Sym f)]]]] ++ setfs ++ [Sym "inst"]).
-
-(* the body of the instance form, as eval runs it *)
-Definition run_inst (e : env) (fl : string) : list (string * obj) -> list obj -> res obj :=
-  fix go (slots : list (string * obj)) (l : list obj) : res obj :=
-    match l with
-    | [] => Ok Nil
-    | [Sym r] => if (r =? "inst")%string then Ok (Inst fl slots) else Err EUnmodelled
-    | L [Sym sf; L [Sym sv; Sym iv'; L [Sym q; Sym k]]; vf] :: rest =>
-        if (sf =? "setf")%string && (sv =? "slot-value")%string && (iv' =? "inst")%string && (q =? "quote")%string then
-          bind (eval (("inst", Inst fl slots) :: e) vf) (fun v =>
-            match slot_set slots k v with
-            | Some s' => go s' rest
-            | None => Err EType
-            end)
-        else Err EUnmodelled
-    | _ => Err EUnmodelled
-    end.
-
-Lemma eval_inst_let : forall e f n ivars i g s d setfs,
-  lookup e f = Some (Flv n ivars i g s d) ->
-  eval e (inst_let f setfs) = run_inst e f ivars (setfs ++ [Sym "inst"]).
+(* quoted data holds no instance *)
+Lemma quotable_insts_in : forall v e, quotable v = true -> insts_in e v = true.
 Proof.
-  intros e f n ivars i g s d setfs Hl. unfold inst_let. cbn [app].
-  unfold quote. cbn. rewrite Hl. reflexivity.
-Qed.
-
-Lemma slot_set_mid : forall done k o w rest, ~ In k (map fst done) ->
-  slot_set (done ++ (k, o) :: rest) k w = Some (done ++ (k, w) :: rest).
-Proof.
-  induction done as [|[k' v'] r IH]; intros k o w rest Hn; cbn [app slot_set].
-  - rewrite String.eqb_refl. reflexivity.
-  - destruct (k' =? k) eqn:E.
-    + apply String.eqb_eq in E. subst. exfalso. apply Hn. left. reflexivity.
-    + rewrite IH; [reflexivity|]. intro Hin. apply Hn. right. exact Hin.
-Qed.
-
-Lemma run_inst_all : forall e fl todo fws done olds,
-  Forall2 (fun kv fw => forall cur, eval (("inst", Inst fl cur) :: e) fw = Ok (snd kv)) todo fws ->
-  map fst olds = map fst todo -> NoDup (map fst done ++ map fst todo) ->
-  run_inst e fl (done ++ olds) (map (fun p => setf_slot (fst p) (snd p)) (combine (map fst todo) fws) ++ [Sym "inst"])
-  = Ok (Inst fl (done ++ todo)).
-Proof.
-  intros e fl todo. induction todo as [|[k w] todo IH]; intros fws done olds HF Hk Hnd.
-  - inversion HF; subst. destruct olds; [|discriminate]. cbn. reflexivity.
-  - inversion HF as [|? fw ? fws' Hfw HF']; subst. destruct olds as [|[k0 o] olds]; [discriminate|].
-    cbn [map fst] in Hk. injection Hk as Hk0 Hk. subst k0.
-    cbn [map fst combine app]. unfold setf_slot at 1. unfold quote. cbn [fst snd].
-    cbn [run_inst]. cbn [String.eqb Ascii.eqb Bool.eqb andb].
-    cbn [snd] in Hfw. rewrite Hfw. cbn [bind].
-    assert (Hn : ~ In k (map fst done)).
-    { cbn [map fst] in Hnd. intro Hin. apply NoDup_remove_2 in Hnd. apply Hnd. apply in_or_app. left. exact Hin. }
-    rewrite slot_set_mid by exact Hn.
-    fold (run_inst e fl).
-    replace (done ++ (k, w) :: olds) with ((done ++ [(k, w)]) ++ olds) by (rewrite <- app_assoc; reflexivity).
-    rewrite (IH fws' (done ++ [(k, w)]) olds HF' Hk).
-    + rewrite <- app_assoc. reflexivity.
-    + rewrite map_app. cbn [map fst]. rewrite <- app_assoc. exact Hnd.
-Qed.
-
-Lemma strings_eqb_eq : forall a b, strings_eqb a b = true -> a = b.
-Proof.
-  induction a as [|x a IH]; destruct b as [|y b]; cbn [strings_eqb]; intro H; try discriminate; [reflexivity|].
-  apply andb_true_iff in H. destruct H as [H1 H2]. apply String.eqb_eq in H1. subst. f_equal. apply IH. exact H2.
-Qed.
-Lemma keys_nodupb_nodup : forall l, keys_nodupb l = true -> NoDup l.
-Proof.
-  induction l as [|k r IH]; intro H; [constructor|]. cbn [keys_nodupb] in H. apply andb_true_iff in H. destruct H as [H1 H2].
-  constructor; [|apply IH; exact H2]. intro Hin. apply negb_true_iff in H1.
-  assert (existsb (String.eqb k) r = true) by (apply existsb_exists; exists k; split; [exact Hin|apply String.eqb_refl]). congruence.
-Qed.
-
-Lemma env_ok_inst : forall e x, env_ok e -> env_ok (("inst", x) :: e).
-Proof.
-  intros e x He s Hs. cbn [lookup]. destruct ("inst" =? s) eqn:E; [|apply He; exact Hs].
-  apply String.eqb_eq in E. subst. vm_compute in Hs. discriminate.
+  induction v using obj_ind2; intros e Hq; try reflexivity; try discriminate; cbn [quotable insts_in] in *.
+  - apply andb_true_iff in Hq. destruct Hq as [_ Hq].
+    induction xs as [|a r IHr]; [reflexivity|]. inversion H; subst. cbn [forallb] in *. apply andb_true_iff in Hq. destruct Hq as [Ha Hr].
+    rewrite (H2 e Ha). cbn [andb]. apply IHr; assumption.
+  - apply andb_true_iff in Hq. destruct Hq as [Hq _]. apply andb_true_iff in Hq. destruct Hq as [Hq Ht].
+    apply andb_true_iff in Hq. destruct Hq as [_ Hq]. rewrite (IHv e Ht), andb_true_r.
+    induction xs as [|a r IHr]; [reflexivity|]. inversion H; subst. cbn [forallb] in *. apply andb_true_iff in Hq. destruct Hq as [Ha Hr].
+    rewrite (H2 e Ha). cbn [andb]. apply IHr; assumption.
 Qed.
 
 (* adding the binding of inst does not hide a flavor (no flavor is called inst) *)
-Lemma insts_in_inst : forall v e x, snap_safe_i v = true -> insts_in e v = true -> insts_in (("inst", x) :: e) v = true.
+Lemma insts_in_inst_i : forall v e x, snap_safe_i v = true -> insts_in e v = true -> insts_in (("inst", x) :: e) v = true.
 Proof.
   induction v using obj_ind2; intros e x Hs Hi; try reflexivity.
-  cbn [snap_safe_i] in Hs. apply andb_true_iff in Hs. destruct Hs as [Hf Hs]. apply negb_true_iff in Hf.
-  cbn [insts_in] in Hi |- *. apply andb_true_iff in Hi. destruct Hi as [Hi Hg]. apply andb_true_iff in Hi. destruct Hi as [Hl Hn].
-  cbn [lookup]. assert (("inst" =? f) = false) as -> by (rewrite String.eqb_sym; exact Hf).
-  rewrite Hl, Hn. cbn [andb]. clear Hl Hn.
-  induction slots as [|[k w] r IH]; [reflexivity|].
-  inversion H as [|? ? Hw Hr]; subst. cbn [snd] in Hw.
-  apply andb_true_iff in Hs. destruct Hs as [Hs1 Hs2]. apply andb_true_iff in Hg. destruct Hg as [Hg1 Hg2].
-  rewrite (Hw e x Hs1 Hg1). cbn [andb]. apply IH; assumption.
+  - apply quotable_insts_in. exact Hs.
+  - apply quotable_insts_in. exact Hs.
+  - cbn [snap_safe_i snap_safe] in Hs. apply andb_true_iff in Hs. destruct Hs as [_ Hn]. apply no_inst_insts_in. exact Hn.
+  - cbn [snap_safe_i] in Hs. apply andb_true_iff in Hs. destruct Hs as [Hf Hs]. apply negb_true_iff in Hf.
+    cbn [insts_in] in Hi |- *. apply andb_true_iff in Hi. destruct Hi as [Hi Hg]. apply andb_true_iff in Hi. destruct Hi as [Hl Hn].
+    cbn [lookup]. assert (("inst" =? f) = false) as -> by (rewrite String.eqb_sym; exact Hf).
+    rewrite Hl, Hn. cbn [andb]. clear Hl Hn.
+    induction slots as [|[k w] r IH]; [reflexivity|].
+    inversion H as [|? ? Hw Hr]; subst. cbn [snd] in Hw.
+    apply andb_true_iff in Hs. destruct Hs as [Hs1 Hs2]. apply andb_true_iff in Hg. destruct Hg as [Hg1 Hg2].
+    rewrite (Hw e x Hs1 Hg1). cbn [andb]. apply IH; assumption.
 Qed.
 
 (* Theorem 3: what the snapshot writes for a value -- instances included, nested without bound, every instance
@@ -703,7 +622,7 @@ Proof.
       destruct (IH Hr Hs2 Hg2) as (fws & HF).
       destruct (Hw Hs1 e He Hg1) as (fw & Epp & _).
       exists (fw :: fws). constructor; [|exact HF]. split; [exact Epp|]. intro cur.
-      destruct (Hw Hs1 (("inst", Inst f cur) :: e) (env_ok_inst e _ He) (insts_in_inst w e _ Hs1 Hg1)) as (fw' & Epp' & Ev').
+      destruct (Hw Hs1 (("inst", Inst f cur) :: e) (env_ok_inst e _ He) (insts_in_inst_i w e _ Hs1 Hg1)) as (fw' & Epp' & Ev').
       rewrite Epp in Epp'. injection Epp' as <-. exact Ev'. }
     destruct Hfws as (fws & HF).
     exists (inst_let f (map (fun p => setf_slot (fst p) (snd p)) (combine (map fst slots) fws))). split.
@@ -727,19 +646,11 @@ Qed.
 (* non-vacuity and the contrast with InstanceLoadForm (instance.go:56), which make-load-form uses for an instance: it
    puts the values of the instance variables into the form as they are, so an instance holding a list has a load form
    that cannot be evaluated [C19-instance-load-form-raw] *)
-Definition ex_flavor : obj := Flv "blk" [("sa", Nil); ("sb", Fix 2)] true true true "".
-Definition ex_env : env := ("blk", ex_flavor) :: global_env.
 Definition ex_instance : obj :=
   Inst "blk" [("sa", L [Fix 1; L [Fix 2; Str "two"]; Fix 3]); ("sb", Inst "blk" [("sa", Dot [Sym "a"] (Sym "b")); ("sb", Fix 2)])].
 Lemma ex_instance_ok : snap_safe_i ex_instance = true /\ insts_in ex_env ex_instance = true
   /\ bind (pp_value ex_instance) (eval ex_env) = Ok ex_instance.
 Proof. repeat split; vm_compute; reflexivity. Qed.
-Lemma instance_load_form_raw_refuted :
-  bind (load_form (Inst "blk" [("sa", L [Fix 1; Fix 2; Fix 3]); ("sb", Fix 2)])) (eval ex_env) = Err ENotFunction
-  /\ bind (pp_value (Inst "blk" [("sa", L [Fix 1; Fix 2; Fix 3]); ("sb", Fix 2)])) (eval ex_env)
-     = Ok (Inst "blk" [("sa", L [Fix 1; Fix 2; Fix 3]); ("sb", Fix 2)]).
-Proof. split; vm_compute; reflexivity. Qed.
-
 (* a session with a flavor, an instance holding a list, a nested instance and the flavor itself, changed by send: the
    extended guard holds and the decidable specification too (evaluated, as on every run; not covered by Theorem 2) *)
 Definition ex_flavor_history : list obj :=
